@@ -158,12 +158,9 @@ class Ctx:
 
     # ---------- step 2: prove ----------
     def coq_makefile(self):
-        mk = os.path.join(COQ, "Makefile")
-        cp = os.path.join(COQ, "_CoqProject")
-        if not os.path.exists(mk) or os.path.getmtime(mk) < os.path.getmtime(cp):
-            rc, out = sh("coq_makefile -f _CoqProject -o Makefile", cwd=COQ)
-            if rc != 0:
-                raise RuntimeError("coq_makefile failed: " + out)
+        """(re)generate coq/Makefile from the _CoqProject lines whose files exist (a listed but
+        not yet written file must not break every other target)"""
+        live_coq_project()
 
     def coq_make(self, targets, timeout=1500):
         """full .vo build of the given targets (never -vos)"""
@@ -435,6 +432,30 @@ class Ctx:
             json.dump(ev, f, indent=1, default=str)
         self.log("done: %d violation(s), %d known finding(s), %.1fs" % (len(vio), len(self.known_hits), time.time() - self.t0))
         return 1 if vio else 0
+
+
+def live_coq_project():
+    cp = os.path.join(COQ, "_CoqProject")
+    live = os.path.join(COQ, ".CoqProject.live")
+    lines = []
+    for l in open(cp).read().splitlines():
+        t = l.strip()
+        if t.endswith(".v") and not t.startswith("-") and not os.path.exists(os.path.join(COQ, t)):
+            continue
+        lines.append(l)
+    text = "\n".join(lines) + "\n"
+    old = None
+    try:
+        old = open(live).read()
+    except OSError:
+        pass
+    mk = os.path.join(COQ, "Makefile")
+    if old != text or not os.path.exists(mk):
+        with open(live, "w") as f:
+            f.write(text)
+        rc, out = sh("coq_makefile -f .CoqProject.live -o Makefile", cwd=COQ)
+        if rc != 0:
+            raise RuntimeError("coq_makefile failed: " + out)
 
 
 class BuildError(Exception):
